@@ -9,7 +9,11 @@ from . import proj  # noqa: E402
 IDS = ["K", "M", "N"]
 
 
-def build(tree, depth, emb, d, ids, shape=None):
+def build(tree, depth, emb, d, ids, shape=None, late=0):
+    if emb == "tensor" and late:
+        # fibers built with their own (zero) default join a tensor whose leaf rank declares default d: from then on the rank's default is THE default
+        t = Tensor.fromFiber(rank_ids=list(ids[:depth]), fiber=proj.build_fiber(tree, 0), shape=shape, default=proj.real(d), name="T")
+        return t, t.getRoot(), (lambda: proj.proj_tensor(t))
     if emb == "tensor":
         t = proj.build_tensor(tree, ids[:depth], default=d, shape=shape)
         return t, t.getRoot(), (lambda: proj.proj_tensor(t))
@@ -25,9 +29,10 @@ def execute(case):
     proj.VALUE_MAP = proj.VALUE_MAPS.get(case.get("vmap", ""))
     try:
         ids_b = ["X", "Y", "Z"] if case.get("diffids") else IDS
-        A, ra, pa = build(case["a"], depth, ea, d, IDS, case.get("shape_a"))
-        Bo, rb, pb = build(case["b"], depth, eb, d, ids_b, case.get("shape_b"))
-        C, rc, pc = build(out["c"], depth, eb, d, ids_b)
+        late = case.get("latedflt", 0)
+        A, ra, pa = build(case["a"], depth, ea, d, IDS, case.get("shape_a"), late)
+        Bo, rb, pb = build(case["b"], depth, eb, d, ids_b, case.get("shape_b"), late)
+        C, rc, pc = build(out["c"], depth, eb, d, ids_b, None, late)
         # compare like with like: tensor==tensor, otherwise the root fibers (ownership must not matter)
         xa, xb, xc = (A, Bo, C) if out["tensors"] else (ra, rb, rc)
         out["pre"] = [pa(), pb()]
@@ -44,6 +49,7 @@ def execute(case):
         out["eq_ac"] = bool(xa == xc)
         out["empty_a"] = bool(ra.isEmpty())
         out["count_a"] = int(A.countValues())
+        out["count_nr"] = int(ra.countValues(recursive=False))
         ne = ra.nonEmpty()
         out["ne_a"] = proj.proj_fiber(ne)
         out["eq_ne"] = bool(ne == ra) and bool(ra == ne)
@@ -53,6 +59,7 @@ def execute(case):
         for k in ("eq_ab", "eq_ba", "ne_ab", "eq_aa", "eq_copy", "eq_bc", "eq_ac", "empty_a", "eq_ne"):
             out.setdefault(k, False)
         out.setdefault("count_a", 0)
+        out.setdefault("count_nr", 0)
         out.setdefault("ne_a", {"k": "F", "e": []})
         out.setdefault("pre", [])
         out.setdefault("post", [])
